@@ -22,9 +22,11 @@ def main():
             files, js = mod.generate(repo)
         except Exception as e:
             ok = False
+            print(f'GEN {g} FAILED')
             print(f'gen_tables: generator {g} FAILED: {e}')
             traceback.print_exc()
             continue
+        print(f'GEN {g} OK')
         tables[g] = js
         for rel, text in files.items():
             p = os.path.join(lean, rel)
